@@ -542,7 +542,13 @@ def infer_roles(path):
                     cdim = attr(var, f"{loc}_dimension")
                     qd = dims_of[q]
                     transposed = cdim is not None and len(qd) == 2 and qd[1] == cdim and qd[0] != cdim
-                    setrole(q, "connT" if transposed else "conn", True)
+                    try:
+                        si = attr(allv[q][0], "start_index")
+                        shifted = si is not None and int(np.asarray(si).flatten()[0]) != 0
+                    except Exception:
+                        shifted = False
+                    # (stored cell dimension last: transposed by the reader; one-based: shifted by the reader - 7759b57)
+                    setrole(q, "connT" if transposed else "connS" if shifted else "conn", True)
                 for q in str(attr(var, "node_coordinates") or "").split():
                     setrole(_resolve(q, p, names), "coord")
                 for loc in ("edge", "face"):
